@@ -700,6 +700,7 @@ Definition aux_regions (entry : N) : list nat :=
   | 2%N => [G_PARENT; G_DEFCACHE; G_PATHDIR; G_CWD; G_PARENT; G_LOADMODE]                (* format_help: parser_context(parent_parser, defaults_cache) around get_defaults *)
   | 3%N => [G_ARGPARSE_NS; G_PARENT; G_LENIENT; G_PATHDIR; G_CWD; G_PARENT; G_LOADMODE]  (* parse_args([]) with default_config_files *)
   | 4%N => [G_ARGPARSE_NS; G_PARENT; G_LENIENT; G_PATHDIR; G_CWD]                        (* List[int] with enable_path: adapt_typehints under change_to_path_dir(list_path) *)
+  | 6%N => [G_PARENT; G_DEFCACHE; G_PATHDIR; G_CWD; G_PARENT; G_LOADMODE]                (* print_help(file): as format_help *)
   | _ => [G_PARENT; G_LENIENT]                                                            (* parse_env *)
   end.
 Definition aux_run (entry : N) (fails : bool) : M unit :=
